@@ -80,10 +80,13 @@ CHECKS = {
             "corners of its lattice cell and references existing nodes only; first/last node on the box faces, Depth = top - z; "
             "the tag filter keeps exactly the selected cells with offsets nvert, 2 nvert, ...; 2-D chunks (node order, corners) and the "
             "annulus (corners with the ring wrap, the ring closes, angular positions, Depth = outer radius - radius); 3-D chunks use "
-            "the box numbering. Not a theorem: XML writing (vtu11; all five write modes are decoded and compared with the ASCII "
-            "file), the sphere layout (checked by parsing and by the Depth/radius relation). Tie: connectivity of the binary's VTU "
-            "vs the extracted model for boxes, chunks and the annulus; node values vs the library through wbprobe at the recomputed "
-            "positions.",
+            "the box numbering; the sphere mesh (SphereGrid.v: twelve mapped blocks projected on the sphere, hulls merged by the distance "
+            "tolerance, renumbered, stacked in layers), for every number interpretation: n_cell_z*12*n^2 cells of 4+4 vertices (a shell "
+            "cell on layer i and on layer i+1), (n_cell_z+1) layers of n_kept nodes, every vertex index is a node, the renumbering after "
+            "the merge is the order-preserving bijection of the kept nodes onto 0..n_kept-1. Not a theorem: XML writing (vtu11; all five "
+            "write modes are decoded and compared with the ASCII file). Tie: connectivity of the binary's VTU vs the extracted model for "
+            "boxes, chunks, annulus and sphere; the sphere's node coordinates and Depth as exact binary64 values (RawBinary file) vs the "
+            "extracted model bit for bit; node values vs the library through wbprobe at the recomputed positions (all grid types).",
             "proof (lia/nia index theorems) + binary-vs-model connectivity correspondence + node-value oracle", "4 C18"),
     "C15": ("Theorems (Properties_C15.v): [S, axiom-free] every random grains block consumes exactly 3k (+k for random sizes) draws "
             "and every random composition one draw, blocks keep their announced length, equal worlds and equal histories give "
